@@ -61,6 +61,7 @@ class Ctx(object):
                       ops=[op_to_json(o) for o in case.ops] if case is not None else None,
                       config=case.config_json() if case is not None else None)
         self.last_violation = v
+        v.minimize = getattr(case, "minimize", True)
         if case is not None:
             case.failed = True
         raise v
@@ -296,6 +297,18 @@ class Prop(object):
     # extra, non-Hypothesis work of a check (exhaustive sub-checks); returns nothing, uses ctx
     def extra_checks(self, ctx, tier, seed, shard, nshards):
         pass
+
+    def replay_custom(self, ctx, rep):
+        """replays of violations found by the fixed probes (scale probes etc.): the probe itself is re-run"""
+        self.extra_checks(ctx, rep.get("tier", "quick") if rep.get("tier") in ("quick", "thorough") else "quick",
+                          rep.get("seed", 1), rep.get("shard", 0), NSHARDS_DEFAULT)
+
+
+NSHARDS_DEFAULT = 16
+
+
+class _Unused(object):
+    pass
 
 
 # -------------------------------------------------------------------------------------------------
